@@ -3664,6 +3664,7 @@ func c02ReferencedNodesIndexed(c *Ctx) {
 			type st struct {
 				target, k, v *Sym
 				inLoop       bool
+				conds        []symCond
 			}
 			var stores []st
 			proto := &symWalker{Inline: samePkgInline(pk)}
@@ -3672,7 +3673,7 @@ func c02ReferencedNodesIndexed(c *Ctx) {
 					ids = v
 					return
 				}
-				stores = append(stores, st{target, k, v, len(w.Loops()) > 0})
+				stores = append(stores, st{target, k, v, len(w.Loops()) > 0, w.Conds()})
 			}
 			p.SymWalk(pk, fd, proto, nil)
 			key := relOf(pk) + "." + fd.Name.Name + "#referenced-nodes"
@@ -3687,6 +3688,33 @@ func c02ReferencedNodesIndexed(c *Ctx) {
 					continue
 				}
 				bare = true
+				// the id is what the referring value holds under "@id" ...
+				fromID := false
+				s.k.Walk(func(x *Sym) {
+					if x.K == symIndex && x.Y != nil {
+						if ys, ok := x.Y.ConstString(); ok && ys == "@id" {
+							fromID = true
+						}
+					}
+				})
+				r.Check(fromID, "C02.P15", key+"#id-source", p.Pos(fd.Pos()), "the id of the bare node is read from the \"@id\" entry of the referring value", "the key under which the bare node is entered ("+s.k.String()+") is not read from an \"@id\" entry: a reference {\"@id\": W} does not make W a node of the index")
+				// ... and the store is not confined to values that are NOT objects (a comma-ok type test negated)
+				confined := ""
+				for _, lit := range condLiterals(s.conds) {
+					if lit.neg && lit.atom.K == symCall && lit.atom.Fn == "result1" && len(lit.atom.Parts) == 1 && strings.Contains(s.k.String(), lit.atom.Parts[0].String()) {
+						sub := lit.atom.Parts[0]
+						if sub.K == symIndex && sub.X != nil && sub.X.K == symStruct && len(sub.X.Fields) == 0 {
+							continue // "not yet in the index" (a lookup in the map under construction), not a type test
+						}
+						if sub.K == symIndex {
+							if ys, ok := sub.Y.ConstString(); ok && ys == "@id" {
+								continue // a test of the "@id" entry, judged above
+							}
+						}
+						confined = sub.String()
+					}
+				}
+				r.Check(confined == "", "C02.P15", key+"#reached", p.Pos(fd.Pos()), "the store is reached for values that are objects", "the bare node is entered only where the referring value "+confined+" FAILED its type test (a negated comma-ok): for a reference {\"@id\": W} the store is never reached")
 			}
 			r.Check(bare, "C02.P15", key, p.Pos(fd.Pos()), "a bare node is entered for every id a value refers to", why+": a path that passes through a node the data does not describe loses that node (find looks it up in the index)")
 		}
@@ -3792,4 +3820,35 @@ func c18CommandsDispatched(c *Ctx) {
 	if n == 0 {
 		r.Unknown("C18.W13", "commands", "", "no exported parameterless function found in cmd/commands")
 	}
+}
+
+// condLiteral: an atom of a path condition with its polarity.
+type condLiteral struct {
+	atom *Sym
+	neg  bool
+}
+
+// condLiterals: the literals that certainly hold given the path conditions: a condition that holds is split on &&, one
+// that does not hold on || (de Morgan); negations are folded into the polarity.
+func condLiterals(cs []symCond) []condLiteral {
+	var out []condLiteral
+	var split func(s *Sym, neg bool, depth int)
+	split = func(s *Sym, neg bool, depth int) {
+		for s != nil && s.K == symNot {
+			s, neg = s.X, !neg
+		}
+		if s == nil || depth > 12 {
+			return
+		}
+		if s.K == symBin && ((s.Op == token.LAND && !neg) || (s.Op == token.LOR && neg)) {
+			split(s.X, neg, depth+1)
+			split(s.Y, neg, depth+1)
+			return
+		}
+		out = append(out, condLiteral{s, neg})
+	}
+	for _, c := range cs {
+		split(c.Cond, c.Neg, 0)
+	}
+	return out
 }
